@@ -23,7 +23,7 @@ func init() {
 		Controls: []Control{
 			{Name: "notification-exit-without-uninit", File: "protocols/bgp/server/fsm_established.go", Old: "\tstopTimer(s.fsm.connectRetryTimer)\n\ts.uninit()\n\ts.fsm.con.Close()\n\ts.fsm.connectRetryCounter++\n\treturn newIdleState(s.fsm), \"Received NOTIFICATION\"", New: "\tstopTimer(s.fsm.connectRetryTimer)\n\ts.fsm.con.Close()\n\ts.fsm.connectRetryCounter++\n\treturn newIdleState(s.fsm), \"Received NOTIFICATION\"", Expect: "exit-established-uninit"},
 			{Name: "dispose-keeps-adjribout-registered", File: "protocols/bgp/server/fsm_address_family.go", Old: "\tf.rib.Unregister(f.adjRIBOut)\n", New: "", Expect: "init-dispose-paired"},
-			{Name: "uninit-keeps-ribs-initialized", File: "protocols/bgp/server/fsm_established.go", Old: "\ts.fsm.counters.reset()\n\n\ts.fsm.ribsInitialized = false\n", New: "\ts.fsm.counters.reset()\n", Expect: "exit-established-uninit"},
+			{Name: "uninit-keeps-ribs-initialized", File: "protocols/bgp/server/fsm_established.go", Old: "\ts.fsm.stateMu.Lock()\n\ts.fsm.ribsInitialized = false\n\ts.fsm.stateMu.Unlock()\n", New: "", Expect: "exit-established-uninit"},
 			{Name: "keepalive-failure-exit-without-uninit", File: "protocols/bgp/server/fsm_established.go", Old: "\tif err != nil {\n\t\ts.uninit()\n\t\tstopTimer(s.fsm.connectRetryTimer)", New: "\tif err != nil {\n\t\tstopTimer(s.fsm.connectRetryTimer)", Expect: "exit-established-uninit"},
 		},
 	})
